@@ -744,6 +744,16 @@ def m_ord(interp, args, kw):
     return NATIVE
 
 
+def m_chr(interp, args, kw):
+    x = args[0]
+    if not isinstance(x, SInt):
+        return NATIVE
+    e = x.e
+    if br(z3.Or(e < 0, e > 0x10FFFF)):
+        raise ValueError("chr() arg not in range(0x110000)")
+    return mk("str", [V.simp(z3.Extract(core.CHAR_BITS - 1, 0, e))])
+
+
 def m_print(interp, args, kw):
     return None
 
@@ -885,7 +895,7 @@ FUNC_MODELS = {
     list: m_list, tuple: m_tuple, set: m_set, frozenset: m_frozenset, dict: m_dict,
     min: m_minmax("min"), max: m_minmax("max"), callable: m_callable, map: m_map, filter: m_filter,
     enumerate: m_enumerate, zip: m_zip, sum: m_sum, bytearray: m_bytearray, bytes: m_bytes,
-    getattr: m_getattr, hasattr: m_hasattr, ord: m_ord, print: m_print, os.fspath: m_fspath,
+    getattr: m_getattr, hasattr: m_hasattr, ord: m_ord, chr: m_chr, print: m_print, os.fspath: m_fspath,
     re.sub: m_re_fn("sub"), re.match: m_re_fn("match"), re.search: m_re_fn("search"),
     re.fullmatch: m_re_fn("fullmatch"), re.split: m_re_fn("split"), re.finditer: m_re_fn("finditer"),
     re.findall: m_re_fn("findall"),
